@@ -161,7 +161,7 @@ Definition sent_texts (U : univ) (c : cfg) (M : list revid) : list tkey := texts
 Definition refill (U : univ) (c : cfg) (T : repo) (M : list revid) : list revid :=
   if ext c then filter (fun p => negb (memb p (invs T))) (boundary U M) else [].
 
-Inductive outcome := FOk | FNoSuchRevision | FIncompatible | FBzrError.
+Inductive outcome := FOk | FNoSuchRevision | FIncompatible | FBzrError | FBzrCheckError.
 
 Definition vis_of (F T : repo) : list revid := revs T ++ revs F.
 
@@ -203,6 +203,30 @@ Definition fetch (U : univ) (c : cfg) (F T : repo) (fg : bool) (r : revid) : out
   if negb (srcp U r) && (fg || negb (memb r vis)) then (FNoSuchRevision, 0, T)
   else transfer2 U c T (client_keys U fg vis r) (missing U c fg vis r).
 
+(* A fetch whose sender cannot supply the parent inventories the sink asks for -- real instance:
+   pull over the smart server from a STACKED source branch whose revisions live in its own fallback
+   (the Repository.get_stream_for_missing_keys request is answered by the stacked source repository
+   alone).  When no parent inventory is needed it is an ordinary fetch.  Otherwise the sink resumes
+   the write group without them (StreamSink.insert_stream: get_missing_parent_inventories with
+   check_for_missing_texts finds the texts present) and commit_write_group runs
+   GCRepositoryPackCollection._check_new_inventories [check_ok]: every text a new inventory references
+   must be held locally unless a parent inventory that IS held locally references it too; the texts
+   shared with the absent boundary parent were not sent, so the group is normally refused
+   (BzrCheckError, nothing written). *)
+Definition no_ext (c : cfg) : cfg := Cfg false (incompat c) (stacked c) (remote_src c).
+Definition check_ok (U : univ) (T : repo) (M : list revid) : bool :=
+  forallb (fun m => forallb (fun t => tmemb t (texts T) ||
+                       existsb (fun p => memb p (invs T) && tmemb t (inv_of U p)) (parents (ug U) m))
+                    (inv_of U m)) M.
+Definition fetch_nr (U : univ) (c : cfg) (F T : repo) (fg : bool) (r : revid) : outcome * nat * repo :=
+  let M := missing U c fg (vis_of F T) r in
+  match refill U c T M with
+  | [] => fetch U c F T fg r
+  | _ => if negb (srcp U r) && (fg || negb (memb r (vis_of F T))) then (FNoSuchRevision, 0, T)
+         else let T1 := insert U (no_ext c) T M in
+              if check_ok U T1 M then (FOk, List.length M, T1) else (FBzrCheckError, 0, T)
+  end.
+
 (* Repository.fetch(source) without a revision (EverythingNotInOther: all_revision_ids of the
    source minus those the target sees) *)
 Definition missing_all (U : univ) (vis : list revid) : list revid :=
@@ -227,12 +251,13 @@ Definition commit (U : univ) (c : cfg) (F T : repo) (r : revid) : outcome * nat 
     end
   else (FOk, 1, Repo (add r (revs T)) (add r (invs T)) (tunion own (texts T))).
 
-Inductive op := OFetch (fg : bool) (r : revid) | OFetchAll | OCommit (r : revid).
+Inductive op := OFetch (fg : bool) (r : revid) | OFetchAll | OCommit (r : revid) | OFetchNR (fg : bool) (r : revid).
 
 Definition step (U : univ) (c : cfg) (F T : repo) (o : op) : outcome * nat * repo :=
   match o with
   | OFetch fg r => fetch U c F T fg r
   | OFetchAll => fetch_all U c F T
+  | OFetchNR fg r => fetch_nr U c F T fg r
   | OCommit r => commit U c F T r
   end.
 
@@ -274,6 +299,7 @@ Definition o_outcome (o : outcome) : obs :=
   | FNoSuchRevision => OE "NoSuchRevision"
   | FIncompatible => OE "IncompatibleRepositories"
   | FBzrError => OE "BzrError"
+  | FBzrCheckError => OE "BzrCheckError"
   end.
 
 (* [DAll rootless]: all three record sets; rootless = the target format stores no text for the
